@@ -202,7 +202,7 @@ def r2_manifest_after_commit(P, rep, ctx, rule="C11.R2"):
                   construct="manifest save placement", message="manifest file is written inside the try block of the container commit")
     # the manifest link is part of the *single* user-block write of the commit: it is attached before the container
     # commit, and the subclass performs no user-block write of its own
-    extra = [(i, c, b) for i, c, b in all_saves if not is_manifest_obj(b["__o"]) and not any(is_manifest_obj(b2["__o"]) and i2 == i for i2, c2, b2 in all_saves)]
+    extra = [(i, c, b) for i, c, b in all_saves if not is_manifest_obj(b["__o"]) and not is_manifest_obj(f.xe_at(i, b["__o"])) and i not in mfsave]
     rep.check(not extra, rule, fi.qual, "the manifest subclass writes no user block of its own (single write inside the container commit)", fi.loc(extra[0][1]) if extra else fi.loc(), construct="extra save calls",
               message=f"IH5MFRecord.commit_patch writes the user block a second time ({[norm(c)[:60] for i, c, b in extra]}): a crash between the two writes leaves a container that opens as committed but lacks the manifest link it was committed with")
     installs = f.call_sites("self._set_ublock(-1, __u)")
